@@ -1353,6 +1353,29 @@ SDsetdimname(int32       id, /* IN: dataset ID */
         HGOTO_ERROR(DFE_ARGS, FAIL);
     }
 
+    /* the scale, the strings and the attributes of a dimension are kept by
+       its coordinate variable, which is found by the name of the dimension:
+       it goes by the new name as well, or the dimension would lose them */
+    if (handle->vars != NULL) {
+        NC_var **vp = (NC_var **)handle->vars->values;
+
+        for (unsigned ii = 0; ii < handle->vars->count; ii++, vp++) {
+            if ((*vp)->assoc->count == 1 && (*vp)->assoc->values[0] == (int)(id & 0xffff) &&
+                old->len == (*vp)->name->len && strncmp(old->values, (*vp)->name->values, (size_t)old->len) == 0 &&
+                ((handle->file_type != HDF_FILE) || (*vp)->var_type == IS_CRDVAR || (*vp)->var_type == UNKNOWN)) {
+                NC_string *vname = NC_new_string((unsigned)strlen(name), name);
+
+                if (vname == NULL) {
+                    NC_free_string(new);
+                    HGOTO_ERROR(DFE_ARGS, FAIL);
+                }
+                NC_free_string((*vp)->name);
+                (*vp)->name = vname;
+                break;
+            }
+        }
+    }
+
     dim->name = new;
     NC_free_string(old);
 
